@@ -1,4 +1,4 @@
-(* Modules/Witness.v — concrete programs: the refuted routes (findings F8, F9, F17a, F17b) and programs
+(* Modules/Witness.v — concrete programs: the refuted routes (findings F8, F9, F17a, F17b), the repaired route (first half of F17b) and programs
    satisfying the hypotheses of the positive theorems. *)
 From Coq Require Import List String Bool Arith NArith.
 From Mimium Require Import Modules.Model Modules.Spec Modules.Basics Modules.Program Modules.NoPubUse.
@@ -28,11 +28,23 @@ Definition prog_f17a : list item :=
   [IMod false "outer" [IMod false "inner" [IFn true "secret" [] (EConst 5)]];
    IFn false "dsp" [] (call (EQVar ["outer"; "inner"; "secret"]))].
 
-(* F17b:  mod m { fn hidden(){ 7.0 }  let a = 1.0 }  let b = hidden()  fn dsp(){ b } *)
+(* F17b, repaired half:  mod m { fn hidden(){ 7.0 }  let a = 1.0 }  let b = hidden()  fn dsp(){ b } *)
 Definition prog_f17b : list item :=
   [IMod false "m" [IFn false "hidden" [] (EConst 7); ILet "a" (EConst 1)];
    ILet "b" (call (EVar ["hidden"]));
    IFn false "dsp" [] (EVar ["b"])].
+
+(* F17b, what remains:  mod m { fn hidden(){ 7.0 }  let a = 1.0 }  let a = hidden()  fn dsp(){ a } *)
+Definition prog_f17b_let : list item :=
+  [IMod false "m" [IFn false "hidden" [] (EConst 7); ILet "a" (EConst 1)];
+   ILet "a" (call (EVar ["hidden"]));
+   IFn false "dsp" [] (EVar ["a"])].
+
+(* the same for a top-level function:  mod m { fn hidden(){ 7.0 }  let a = 1.0 }  fn a(){ hidden() }  fn dsp(){ a() } *)
+Definition prog_f17b_fn : list item :=
+  [IMod false "m" [IFn false "hidden" [] (EConst 7); ILet "a" (EConst 1)];
+   IFn false "a" [] (call (EVar ["hidden"]));
+   IFn false "dsp" [] (call (EVar ["a"]))].
 
 Ltac vc := vm_compute; reflexivity.
 Ltac in_list := vm_compute; repeat (first [left; reflexivity | right]).
@@ -96,17 +108,46 @@ Proof.
   split; [in_list|]. split; [in_list|]. split; [apply not_inside_top; discriminate|]. split; vc.
 Qed.
 
-Lemma f17b_refuted :
+(* the former witness of F17b satisfies all four restrictions (it HAS a module `let`), the reference in the
+   initialiser of the top-level `let` is left alone, and the program is rejected: `hidden` is unbound *)
+Lemma f17b_repaired :
+  unique_fns prog_f17b = true /\ mod_lets_apart prog_f17b = true /\ pub_use_safe prog_f17b = true /\ src_prog prog_f17b = true
+  /\ no_mod_let prog_f17b = false
+  /\ private_fn prog_f17b ["m"] "hidden"
+  /\ In ([], "b", EApp (EVar ["hidden"]) []) (let_decls prog_f17b)
+  /\ exists e', convert_program [] prog_f17b = (e', [])
+                /\ In (SLet [["b"]] (EApp (EVar ["hidden"]) [])) (chain_stmts e')
+                /\ unbound [] e' = [["hidden"]].
+Proof.
+  split; [vc|]. split; [vc|]. split; [vc|]. split; [vc|]. split; [vc|].
+  split; [priv|]. split; [in_list|]. eexists. split; [vc|]. split; [in_list|vc].
+Qed.
+
+Lemma f17b_let_refuted :
   exists prog e',
-    unique_fns prog = true /\ pub_use_safe prog = true /\ src_prog prog = true
+    unique_fns prog = true /\ pub_use_safe prog = true /\ src_prog prog = true /\ mod_lets_apart prog = false
     /\ convert_program [] prog = (e', [])
     /\ private_fn prog ["m"] "hidden"
-    /\ In ([], "b", EApp (EVar ["hidden"]) []) (let_decls prog)
-    /\ In (SLet [["b"]] (EApp (EVar ["m"; "hidden"]) [])) (chain_stmts e')
+    /\ In ([], "a", EApp (EVar ["hidden"]) []) (let_decls prog)
+    /\ In (SLet [["a"]] (EApp (EVar ["m"; "hidden"]) [])) (chain_stmts e')
     /\ unbound [] e' = [] /\ run_dsp 10 e' = Some (VNum 7).
 Proof.
-  exists prog_f17b. eexists.
-  split; [vc|]. split; [vc|]. split; [vc|]. split; [vc|].
+  exists prog_f17b_let. eexists.
+  split; [vc|]. split; [vc|]. split; [vc|]. split; [vc|]. split; [vc|].
+  split; [priv|]. split; [in_list|]. split; [in_list|]. split; vc.
+Qed.
+
+Lemma f17b_fn_refuted :
+  exists prog e',
+    unique_fns prog = true /\ pub_use_safe prog = true /\ src_prog prog = true /\ mod_lets_apart prog = false
+    /\ convert_program [] prog = (e', [])
+    /\ private_fn prog ["m"] "hidden"
+    /\ In (mkDecl [] "a" false [] (EApp (EVar ["hidden"]) [])) (fn_decls prog)
+    /\ In (SLetRec ["a"] (ELam [] (EApp (EVar ["m"; "hidden"]) []))) (chain_stmts e')
+    /\ unbound [] e' = [] /\ run_dsp 10 e' = Some (VNum 7).
+Proof.
+  exists prog_f17b_fn. eexists.
+  split; [vc|]. split; [vc|]. split; [vc|]. split; [vc|]. split; [vc|].
   split; [priv|]. split; [in_list|]. split; [in_list|]. split; vc.
 Qed.
 
@@ -120,7 +161,7 @@ Definition prog_ok : list item :=
    IFn false "dsp" [] (ELet [["z"]] (ELam [] (EConst 1)) (Some (call (EVar ["f"]))))].
 
 Lemma ok_satisfiable :
-  unique_fns prog_ok = true /\ no_mod_let prog_ok = true /\ pub_use_safe prog_ok = true /\ src_prog prog_ok = true
+  unique_fns prog_ok = true /\ mod_lets_apart prog_ok = true /\ pub_use_safe prog_ok = true /\ src_prog prog_ok = true
   /\ no_pub_use prog_ok = true
   /\ private_fn prog_ok ["m"] "h"
   /\ (exists e', convert_program [] prog_ok = (e', []) /\ unbound [] e' = [] /\ run_dsp 20 e' = Some (VNum 7)).
@@ -135,7 +176,7 @@ Definition prog_rejected : list item :=
    IFn false "dsp" [] (call (EQVar ["m"; "h"]))].
 
 Lemma rejected_example :
-  unique_fns prog_rejected = true /\ no_mod_let prog_rejected = true /\ pub_use_safe prog_rejected = true
+  unique_fns prog_rejected = true /\ mod_lets_apart prog_rejected = true /\ pub_use_safe prog_rejected = true
   /\ snd (convert_program [] prog_rejected) = [mkErr ["m"] "h"].
 Proof.
   split; [vc|]. split; [vc|]. split; vc.
